@@ -9,7 +9,7 @@ import (
 
 // ---- host spellings ----
 
-var dnsBases = []string{"example.com", "a.example.com", "xn--bcher-kva.example", "host-1.internal", "localhost", "b.co",
+var dnsBases = []string{"example.com", "a.example.com", "xn--bcher-kva.example", "host-1.internal", "localhost", "b.co", "ab--cd.example.com", "r3---x.internal",
 	"very-long-label-0123456789-0123456789-0123456789.example.org", "3com.net", "a", "x1.y2.z3.example"}
 var v4Bases = []string{"10.0.0.1", "127.0.0.1", "192.168.1.254", "255.255.255.255", "0.0.0.0", "8.8.8.8"}
 var v6Bases = []string{"::1", "2001:db8::1", "fe80::1:2:3:4", "::", "2001:db8:0:0:0:0:0:1", "0:0:0:0:0:0:0:1", "::ffff:10.0.0.1",
@@ -497,7 +497,11 @@ func (P) Gen(r *core.Rand, tier string, emit func([]string)) {
 	for i := 0; i < nConc; i++ {
 		p := pool(r, 4)
 		ops := caOp(1, 3)
-		for j := 0; j < r.Intn(4); j++ {
+		warm := r.Intn(4)
+		if i%2 == 0 {
+			warm = 0 // cold start: the very first requests a Config sees arrive together
+		}
+		for j := 0; j < warm; j++ {
 			ops = append(ops, getOp(r, p, false))
 		}
 		ops = append(ops, concOp(r, p, 16))
